@@ -5,7 +5,7 @@ from . import progs as P
 from . import pcheck
 from .refsem import Ref, Diverged, Unsupported
 
-CONE = ["Proofs/EngineProofs.vo", "Gen/RelDefs.vo", "Proofs/SemProofs.vo", "Proofs/MonoProofs.vo", "Proofs/FairProofs.vo"]
+CONE = ["Proofs/EngineProofs.vo", "Gen/RelDefs.vo", "Proofs/SemProofs.vo", "Proofs/MonoProofs.vo", "Proofs/FairProofs.vo", "Proofs/Fair10.vo"]
 TREE = ["eq", "eq", "neq", "cond", "cond", "fresh", "conj", "member", "append", "closure", "true", "false"]
 
 
